@@ -105,6 +105,21 @@ func (x *Exec) spec(env *evalEnv, n SpecNode) string {
 		} else {
 			body = and(append(guards, body)...)
 		}
+		if len(n.Trig) > 0 {
+			var pats []string
+			for _, t := range n.Trig {
+				var terms []string
+				for _, part := range splitCommaTop(t) {
+					tn, err := parseSpec(strings.TrimSpace(part))
+					if err != nil {
+						panic(evalError{"bad trigger " + part + ": " + err.Error()})
+					}
+					terms = append(terms, x.spec(&e2, tn))
+				}
+				pats = append(pats, ":pattern ("+strings.Join(terms, " ")+")")
+			}
+			return fmt.Sprintf("(%s (%s) (! %s %s))", q, strings.Join(bs, " "), body, strings.Join(pats, " "))
+		}
 		return fmt.Sprintf("(%s (%s) %s)", q, strings.Join(bs, " "), body)
 	case *SImp:
 		return "(=> " + x.spec(env, n.A) + " " + x.spec(env, n.B) + ")"
@@ -307,6 +322,10 @@ func (x *Exec) specCall(env *evalEnv, n *ast.CallExpr) (Val, bool) {
 			return Val{"(xlog_int " + a.S + " " + k.S + ")", tInt}, true
 		}
 		return Val{"(xlog_str " + a.S + " " + k.S + ")", tString}, true
+	case "atoi":
+		a := x.expr(env, n.Args[0])
+		x.ctx.decl("fun:atoi", "(declare-fun atoi (Str) Int)")
+		return Val{"(atoi " + a.S + ")", tInt}, true
 	case "typeis":
 		a := x.expr(env, n.Args[0])
 		t := x.resolveType(env, n.Args[1])
